@@ -208,6 +208,19 @@ Definition sub_job_pipelined (has_policy : bool) (job_ts sub_ts : layout Z) : bo
   if has_policy then vote_tiers sub_ts else vote_tiers job_ts.
 
 (* ------------------------------------------------------------------ *)
+(* The dispatch methods by name: which walker, which enable flag of the plugin
+   option, which function map (session_plugins.go).  The layout handed to each is
+   the per-plugin (enable flag of THIS row, registered in THIS map, answer). *)
+Definition job_ready := all_tiers.          (* EnabledJobReady,    jobReadyFns *)
+Definition allocatable := all_tiers.        (* EnabledAllocatable, allocatableFns *)
+Definition preemptive := all_tiers.         (* EnablePreemptive,   preemptiveFns *)
+Definition overused := any_tiers.           (* EnabledOverused,    overusedFns *)
+Definition predicate_fn := predicate.       (* EnabledPredicate,   predicateFns *)
+Definition pre_predicate_fn := predicate.   (* EnabledPredicate,   prePredicateFns *)
+Definition job_pipelined := vote_tiers.     (* EnabledJobPipelined, jobPipelinedFns *)
+Definition job_enqueueable := vote_tiers.   (* EnabledJobEnqueued (sic), jobEnqueueableFns *)
+
+(* ------------------------------------------------------------------ *)
 (* Orderings: JobOrderCompareFn 717-734, JobOrderFn 737-749, QueueOrderFn
    775-798, VictimQueueOrderFn 801-815, TaskCompareFns 818-835, TaskOrderFn
    838-847 *)
